@@ -539,6 +539,18 @@ def call_external(I, st, dotted, args, kwargs, node):
             else:
                 raise Unsupported("timedelta arg")
         return Val("TD", total)
+    if dotted == "heapq.heappush":
+        h, x = args
+        kd = I.kd_of(h)
+        if kd.kind != "set":
+            raise Unsupported("heapq on a real list: declare the field as Set[...] with REG.heap_key")
+        I.set_dom(st, h, z3.Store(I.dom_of(st, h), x.term, True))
+        return NONE
+    if dotted == "heapq.heappop":
+        h = args[0]
+        r = I.heap_min(st, h, node)
+        I.set_dom(st, h, z3.Store(I.dom_of(st, h), r.term, False))
+        return r
     if dotted.startswith("asyncio.") or dotted.startswith("logging.") or dotted.startswith("aiohttp") \
             or dotted.startswith("contextlib.") or dotted.startswith("heapq.") or dotted.startswith("platform.") \
             or dotted.startswith("signal.") or dotted.startswith("json.") or dotted.startswith("calendar.") \
